@@ -80,7 +80,7 @@ const void *body_stub (CTX *ctx, const void *data, unsigned long size)
   XV_STUBPRE ("C16", 64 * G_NBLK + size <= G_PADLEN, "no more blocks than the padded message has");
   /* the bytes compressed are the next bytes of the padded message */
   if (XV_SAME_OBJ (data, G_MSG))
-    XV_STUBPRE ("C16", (const unsigned char *) data == G_MSG + 64 * G_NBLK, "blocks taken from the message are the next ones, in order");
+    XV_STUBPRE ("C16,C03", (const unsigned char *) data == G_MSG + 64 * G_NBLK, "blocks taken from the message are the next ones, in order");
   else
     {
       XV_STUBPRE ("C16", size == 64, "one block at a time from the context buffer");
@@ -88,7 +88,7 @@ const void *body_stub (CTX *ctx, const void *data, unsigned long size)
          the buffered byte must equal it (every byte of every block is checked
          in some instantiation of g_j) */
       if (g_j >= 64 * G_NBLK && g_j < 64 * G_NBLK + 64)
-        XV_STUBPRE ("C16", ((const unsigned char *) data)[g_j - 64 * G_NBLK] == G_MSG[g_j],
+        XV_STUBPRE ("C16,C03", ((const unsigned char *) data)[g_j - 64 * G_NBLK] == G_MSG[g_j],
                     "the buffered block equals the corresponding block of the padded message (arbitrary byte)");
     }
   struct st in = __CPROVER_uninterpreted_gstate (G_NBLK);
@@ -167,7 +167,7 @@ void harness (void)
   G_NBLK = off / 64;
   XV_ASSUME (R (ctx, off));
   D_Update (ctx, G_MSG + off, n);
-  XV_ASSERT ("C16", R (ctx, off + n),
+  XV_ASSERT ("C16,C03", R (ctx, off + n),
              "Update (msg + off, n) takes the representation of the first off bytes to that of the first off + n bytes, for any off and n: chunking-independent");
   XV_CANARY ("update");
   if ((off & 63) && n >= 64 - (off & 63)) XV_CANARY ("update completes a buffered block");
